@@ -10,8 +10,8 @@ CLAIMED = {
  "C13": ("Bounded symbolic model checking of the parser against a reference evaluator: programs of up to d directives with symbolic directive kinds and symbolic condition operands; equality of the resulting Config with the reference is asserted and decided by z3 on every path.",
          "Trusted: gosx and the 30-line reference evaluator in the harness; only well-formed programs are compared.",
          "symbolic execution of the real SSA + SMT (z3) equivalence check against a reference evaluator", "DESIGN.md §5 C13"),
- "C19": ("Bounded symbolic model checking of Unescape(Escape(s)) == s and Unescape(EscapeMacro(s)) == s for all sequences of up to n runes in the property's domain (0x00-0xFF plus printable Unicode); unicode.IsPrint/ToUpper are exact range formulas generated from the toolchain's tables.",
-         "Trusted: gosx, its fmt.Sprintf %x model and unicode range formulas (validated by replay/selftest). The dump-and-reparse half of the property is covered for bind sequences only through this round trip.",
+ "C19": ("Bounded symbolic model checking of Unescape(Escape(s)) == s and Unescape(EscapeMacro(s)) == s for all sequences of up to n runes in the property's domain (0x00-0xFF plus printable Unicode), and of dump-functions / dump-macros / dump-variables in inputrc format followed by ParseBytes reproducing a symbolic binding, macro or variable value; unicode.IsPrint/ToUpper are exact range formulas generated from the toolchain's tables.",
+         "Trusted: gosx, its fmt.Sprintf %x model and unicode range formulas (validated by replay/selftest). The dump-and-reparse half runs the real dump commands inside Readline and parses the captured dump lines back (symbolic binding, macro, and one variable of each type).",
          "symbolic execution of the real SSA + SMT (z3) round-trip assertion", "DESIGN.md §5 C19"),
 }
 
@@ -43,16 +43,16 @@ CLAIMED["C05"] = ("Bounded symbolic differential model checking of chunking inde
  "Trusted: gosx, paint stubs, terminal stub; timing finer than read boundaries is not modelled (keyseq-timeout is not implemented by the library).",
  "symbolic execution of the real SSA (two Readline runs per path) + SMT (z3) equivalence assertions", "DESIGN.md §5 C05")
 
-CLAIMED["C18"] = ("Bounded symbolic model checking of macro record/replay at the macro engine: k symbolic ASCII key bytes are recorded through the same calls the main loop makes per resolved key, stored in inputrc notation and replayed in the emacs style (RunLastMacro) and the vi style (RunMacro of a named register); the keys popped from the key stack must equal the keys typed, decided by z3 for all key values.",
- "Trusted: gosx. Unit level: the key stack is observed with core.PopKey; whole Readline sessions (C-x ( ... C-x ) C-x e) are not driven by this check.",
- "symbolic execution of the real SSA + SMT (z3) equality of replayed and recorded keys", "DESIGN.md §5 C18")
+CLAIMED["C18"] = ("Bounded symbolic model checking of macro record/replay at the macro engine: k symbolic ASCII key bytes are recorded through the same calls the main loop makes per resolved key, stored in inputrc notation and replayed in the emacs style (RunLastMacro) and the vi style (RunMacro of a named register); the keys popped from the key stack must equal the keys typed; at session level the outcome of recording and calling a symbolic key script must equal the outcome of typing it twice; decided by z3 for all key values.",
+ "Trusted: gosx, paint stubs, terminal stub. Two levels: the macro engine alone (key stack observed with core.PopKey), and two whole Readline sessions per path (C-x ( K C-x ) C-x e, or q a K q @ a, against K typed twice) for symbolic scripts K of complete commands.",
+ "symbolic execution of the real SSA (macro engine; two Readline sessions per path) + SMT (z3) equality of replayed and typed keys / outcomes", "DESIGN.md §5 C18")
 
 CLAIMED["C07"] = ("Bounded symbolic model checking of undo/redo through the real Readline loop: symbolic sequences of editing commands (inserts, backspace, kills, yank, movements, undo) typed one key per read, with a ghost list of the buffers shown; undo results must be earlier states, repeated undo must reach the initial content, n undos + n redos must restore the text, an edit after undo must discard the redo branch.",
  "Trusted: gosx, paint stubs, terminal stub; emacs mode only, history walks are not part of the command alphabet.",
  "symbolic execution of the real SSA (Readline loop) + SMT (z3) decision over symbolic command sequences, assertions against a ghost model", "DESIGN.md §5 C07")
 
-CLAIMED["C03"] = ("Bounded symbolic model checking of key dispatch against a reference resolver: the emacs keymap of a real shell is replaced by a symbolic table of bindings (symbolic sequences over printable, ESC, control and meta-encoded keys, each bound to its own probe command) and symbolic keys are typed one per read into the real Readline loop; which command fires first and at which key is asserted equal to the five rules of the property.",
- "Trusted: gosx, the 30-line reference resolver, paint stubs, terminal stub. Main keymap emacs only; macro bindings are not in the symbolic tables; only the first resolution is compared.",
+CLAIMED["C03"] = ("Bounded symbolic model checking of key dispatch against a reference resolver: a keymap of a real shell is replaced by a symbolic table of bindings (symbolic sequences over printable, ESC, control and meta-encoded keys, each bound to its own probe command) and symbolic keys are typed one per read into the real Readline loop; which command fires first and at which key is asserted equal to the five rules of the property.",
+ "Trusted: gosx, the 30-line reference resolver, paint stubs, terminal stub. Tables are installed as emacs, vi-insert, vi-command main keymaps and as visual, vi-opp, menu-select local keymaps (isearch not covered); macro tables bind one sequence to a macro whose keys are another binding's sequence; the first resolution is compared with the resolver, every later firing must be justified by the keys typed.",
  "symbolic execution of the real SSA (Readline loop, symbolic bind tables) + SMT (z3) equivalence with a reference resolver", "DESIGN.md §5 C03")
 
 CLAIMED["C14"] = ("Bounded symbolic model checking of completion locality through the real Readline loop with the display engine unstubbed: symbolic buffer and cursor, an application completer offering candidates that extend the word before the cursor, TAB typed k times and optionally Ctrl-C; after each TAB the buffer must be prefix + candidate + text after the cursor with the cursor after the candidate; after Ctrl-C buffer and cursor are restored and Readline still waits.",
@@ -67,7 +67,7 @@ CLAIMED["C11"] = ("Bounded symbolic model checking of terminal restoration on ev
  "symbolic execution of the real SSA (Readline loop, display engine, term package) + SMT (z3) equality of symbolic termios and VT-model cursor assertions", "DESIGN.md §5 C11")
 
 CLAIMED["C04"] = ("Bounded symbolic model checking of the redisplay against a VT100 model: the real display engine paints two successive frames (different symbolic buffers and cursor positions) on a terminal of symbolic width that answers cursor-position queries truthfully; after each frame the model's grid must equal the reference layout of prompt + buffer (no remnants) and its cursor must be on the cell of the buffer cursor, for all widths/positions of a path.",
- "Trusted: gosx, the VT100 model (zzverif.VT: cursor movement, CR/LF, EL/ED, deferred autowrap) and the reference layout built with it. One-cell characters (lower-case letters), single logical line, no hints/menus, no right/transient prompt.",
+ "Trusted: gosx, the VT100 model (zzverif.VT: cursor movement, CR/LF, EL/ED, deferred autowrap) and the reference layout built with it. Lower-case letters on buffers up to 8/18; small buffers with embedded newlines and with a double-width character (width model of uniseg); no hints/menus, no right/transient prompt.",
  "symbolic execution of the real SSA (display engine, term package) + SMT (z3) path decisions over symbolic width/cursor, grid equality assertions against a reference layout", "DESIGN.md §5 C04")
 
 PENDING = {}
